@@ -15,3 +15,48 @@ Print Assumptions C13_histories. Print Assumptions C13_sharing.
 Example C13_instance :
   exists h1 p h2 q, h_mk_choice h_new 0 0 1 = Some (h1, p) /\ h_mk_choice h1 0 0 1 = Some (h2, q) /\ p = q /\ length (table h2) = 3.
 Proof. do 4 eexists. split; [vm_compute; reflexivity|]. split; [vm_compute; reflexivity|]. split; reflexivity. Qed.
+
+(** the operations as clients of the table: written over addresses the way src/bdd.rs writes them over Rc pointers (read the
+    operands' cells, recurse, finish with mk_choice / mk_const), every connective keeps the table invariant, leaves every
+    pointer handed out earlier valid with an unchanged structure, and returns a pointer whose structure is the tree model's
+    result on the operands' structures - for every environment reachable by whatever history, every operand pair, every fuel *)
+From Coq Require Import List.
+From Rsbdd Require Import Core.Ops Env.HeapOps.
+Theorem C13_not_client fuel h a x res : Inv h -> range h a -> struct h a = Some x ->
+  h_not fuel h a = Some res -> okres h (bnot x) res.
+Proof. exact (h_not_ok fuel h a x res). Qed.
+Theorem C13_and_client fuel h a b x y res : Inv h -> range h a -> range h b -> struct h a = Some x -> struct h b = Some y ->
+  h_and fuel h a b = Some res -> okres h (band x y) res.
+Proof. exact (h_and_ok fuel h a b x y res). Qed.
+Theorem C13_or_client fuel h a b x y res : Inv h -> range h a -> range h b -> struct h a = Some x -> struct h b = Some y ->
+  h_or fuel h a b = Some res -> okres h (bor x y) res.
+Proof. exact (h_or_ok fuel h a b x y res). Qed.
+(** compositions (implies, ite, eq, xor, nor, nand, var, const as programs over not / and / or, operands evaluated left to right) *)
+Theorem C13_connectives_client p fuel h args xs res : Inv h -> valid_args h args xs ->
+  h_run fuel h args p = Some res -> okres h (t_run xs p) res.
+Proof. exact (h_run_ok p fuel h args xs res). Qed.
+(** the programs of the derived operations denote the tree model's derived operations: the connectives, exists / all over a
+    variable list, and the counting cascade cmp_count (hence aln / amn / exn and the list-against-list comparisons) *)
+Theorem C13_derived_programs xs a b c vs bs n cmp :
+  t_run xs (p_implies a b) = bimplies (t_run xs a) (t_run xs b) /\ t_run xs (p_ite a b c) = bite (t_run xs a) (t_run xs b) (t_run xs c) /\
+  t_run xs (p_eq a b) = beq (t_run xs a) (t_run xs b) /\ t_run xs (p_xor a b) = bxor (t_run xs a) (t_run xs b) /\
+  t_run xs (p_nor a b) = bnor (t_run xs a) (t_run xs b) /\ t_run xs (p_nand a b) = bnand (t_run xs a) (t_run xs b) /\
+  t_run xs (p_exists vs a) = bex vs (t_run xs a) /\ t_run xs (p_all vs a) = ball vs (t_run xs a) /\
+  t_run xs (p_cmp_count bs n cmp) = cmp_count (map (t_run xs) bs) n cmp.
+Proof.
+  destruct (t_run_connectives xs a b c) as (H1 & H2 & H3 & H4 & H5 & H6). destruct (t_run_quantifiers xs vs a) as [H7 H8].
+  repeat split; auto. apply t_run_cmp_count.
+Qed.
+Print Assumptions C13_derived_programs.
+(** with fuel above the operands' heights the recursion answers: the `unsupported match` arm of and / or is unreachable *)
+Theorem C13_and_total fuel h a b x y : Inv h -> range h a -> range h b -> struct h a = Some x -> struct h b = Some y ->
+  height x + height y < fuel -> exists res, h_and fuel h a b = Some res.
+Proof. exact (h_and_total fuel h a b x y). Qed.
+Print Assumptions C13_not_client. Print Assumptions C13_and_client. Print Assumptions C13_or_client. Print Assumptions C13_connectives_client. Print Assumptions C13_and_total.
+(** xor of two fresh variables, built pointer by pointer in the empty environment, has the tree model's structure *)
+Example C13_client_instance :
+  match h_run 10 h_new nil (p_xor (PVar 0) (PVar 1)) with
+  | Some (h', p) => struct h' p = Some (bxor (bvar 0) (bvar 1))
+  | None => False
+  end.
+Proof. vm_compute. reflexivity. Qed.
